@@ -146,29 +146,37 @@ package wallet
 // The canonical form of an encoded address map at p: entry count, then the entries with strictly ascending keys of x.
 //@ pred addrMapCanon(w io.Writer, p int, x AddressDecMap) = wtokKind(w, p) == tokkind("int32") && wtokVal(w, p) == len(x) &&
 //@   (forall k int :: { entryPos(p, k) } 0 <= k && k < len(x) ==> wtokKind(w, entryPos(p, k)) == tokkind("int32") && has(x, wtokVal(w, entryPos(p, k))) &&
-//@     wtokKind(w, entryPos(p, k) + 1) == tokkind("marshal") && wtokVal(w, entryPos(p, k) + 1) == marshalOf(x[wtokVal(w, entryPos(p, k))]) &&
-//@     (k + 1 < len(x) ==> wtokVal(w, entryPos(p, k)) < wtokVal(w, entryPos(p, k + 1))))
+//@     wtokKind(w, entryPos(p, k) + 1) == tokkind("marshal") && wtokVal(w, entryPos(p, k) + 1) == marshalOf(x[wtokVal(w, entryPos(p, k))])) &&
+//@   (forall k, j int :: { entryPos(p, k), entryPos(p, j) } 0 <= k && k < j && j < len(x) ==> wtokVal(w, entryPos(p, k)) < wtokVal(w, entryPos(p, j)))
 
 //@ pred addrMapWF(x AddressDecMap) = addrMapNonNil(x) && (forall b BackendID :: has(x, b) ==> has(backend, b) && marshalLen(x[b]) <= 65535)
 //@ pred addrMapEq(y AddressDecMap, x AddressDecMap) = y != nil && len(y) == len(x) &&
 //@   (forall b BackendID :: has(y, b) ==> has(x, b) && y[b] != nil && allocated(payload(y[b])) && unmarshalledFrom(y[b]) == marshalOf(x[b]))
+// The encoder on its own (verified separately, used through this contract by the lemma function, which keeps the sorting
+// facts out of the decoder's proof): the canonical form.
+//@ func (AddressDecMap).Encode
+//@   tokenmodel
+//@   requires w != nil && addrMapWF(a)
+//@   modifies ghost("wcount"), ghost("tkind"), ghost("tlen"), ghost("tval")
+//@   ensures result == nil ==> wcount(w) == old(wcount(w)) + 1 + 2 * len(a) && addrMapCanon(w, old(wcount(w)), a)
+//@   loop 1
+//@     modifies fresh
+//@     invariant len(indexes) == $i && distinctInts(indexes, $i) && fresh(arr(indexes))
+//@     invariant forall k int :: 0 <= k && k < $i ==> has(a, indexes[k]) && visited(indexes[k])
+//@   loop 2
+//@     invariant wcount(w) == old(wcount(w)) + 1 + 2 * $i && len(indexes) == len(a) && ascending(indexes, len(a))
+//@     invariant wtokKind(w, old(wcount(w))) == tokkind("int32") && wtokVal(w, old(wcount(w))) == len(a)
+//@     invariant (forall k int :: 0 <= k && k < len(a) ==> has(a, indexes[k])) && addrMapTokens(w, old(wcount(w)), a, indexes, $i)
 //@ codec AddressDecMap wf addrMapWF eq addrMapEq by verifRoundTripAddressDecMap
 //@ func verifRoundTripAddressDecMap
 //@   tokenmodel
 //@   requires w0 != nil && r0 != nil && addrMapWF(x)
 //@   modifies *
-//@   inlines (AddressDecMap).Encode, (*AddressDecMap).Decode
+//@   inlines (*AddressDecMap).Decode
 //@   ensures encErr == nil && !rfail(r0) && !rejected(r0) ==> decErr == nil
 //@   ensures encErr == nil && decErr == nil ==> !desync(r0) && rcount(r0) - old(rcount(r0)) == wcount(w0) - old(wcount(w0))
 //@   ensures encErr == nil && decErr == nil ==> addrMapEq(y, x)
 //@   ensures encErr == nil ==> wcount(w0) == old(wcount(w0)) + 1 + 2 * len(x) && addrMapCanon(w0, old(wcount(w0)), x)
-//@   loop (AddressDecMap).Encode.1
-//@     invariant len(indexes) == $i && distinctInts(indexes, $i)
-//@     invariant forall k int :: 0 <= k && k < $i ==> has(a, indexes[k]) && visited(indexes[k])
-//@   loop (AddressDecMap).Encode.2
-//@     invariant wcount(w) == old(wcount(w)) + 1 + 2 * $i && len(indexes) == len(a) && ascending(indexes, len(a))
-//@     invariant wtokKind(w, old(wcount(w))) == tokkind("int32") && wtokVal(w, old(wcount(w))) == len(a)
-//@     invariant (forall k int :: 0 <= k && k < len(a) ==> has(a, indexes[k])) && addrMapTokens(w, old(wcount(w)), a, indexes, $i)
 //@   loop (*AddressDecMap).Decode.1
 //@     modifies fresh, ghost("rcount"), ghost("desync"), ghost("rfail"), ghost("rejected"), ghost("unmarshalledFrom"), ghost("unmarshalled")
 //@     invariant addrMapCanon(w0, old(wcount(w0)), x)
@@ -177,6 +185,7 @@ package wallet
 //@     invariant forall b BackendID :: has(*a, b) ==> has(x, b) && (*a)[b] != nil && allocated(payload((*a)[b])) && unmarshalledFrom((*a)[b]) == marshalOf(x[b])
 //@     invariant $i > 0 ==> forall b BackendID :: has(*a, b) ==> b <= wtokVal(w0, entryPos(old(wcount(w0)), $i - 1))
 //@     invariant $i == 0 ==> forall b BackendID :: !has(*a, b)
+//@     invariant $i > 0 && $i < len(x) ==> wtokVal(w0, entryPos(old(wcount(w0)), $i - 1)) < wtokVal(w0, entryPos(old(wcount(w0)), $i))
 
 // Arrays of address maps (the participants of a channel): the number of maps, then one summary token per map (lemma
 // verifRoundTripAddressDecMap).
